@@ -163,6 +163,8 @@ def values_equal(a, b):
         return True
     if a is None and b is None:
         return True
+    if isinstance(a, dict) and isinstance(b, dict):
+        return set(a) == set(b) and all(values_equal(a[k], b[k]) for k in a)
     from .mirsym.values import Opaque
     if isinstance(a, Opaque) and isinstance(b, Opaque):
         return a.tag == b.tag
@@ -327,19 +329,32 @@ def run_kernel(ctx, ob, spec, rec):
                 else:
                     n_ret += 1
                     conds = spec.post(inst, shape, inputs, o.value, o.st)
+                # one query per path: pc /\ not(all post-conditions); the failing condition is then read off the model
+                failing = None
+                symbolic = []
                 for label, c in conds:
                     if c.concrete:
-                        if c.v:
-                            continue
-                        sat, model = ex.check(o.pc)
+                        if not c.v and failing is None:
+                            sat, model = ex.check(o.pc)
+                            if sat:
+                                failing = (label, model)
                     else:
-                        sat, model = ex.check(o.pc + [z3.Not(c.v)])
+                        symbolic.append((label, c))
+                if failing is None and symbolic:
+                    sat, model = ex.check(o.pc + [z3.Not(z3.And(*[c.v for _, c in symbolic]))])
                     if sat:
-                        conc = model_value(model, inputs)
-                        rec["cex"].append({"inst": inst, "shape": shape, "label": label, "inputs": show(conc),
-                                           "trace": "".join(o.trace), "outcome": o.kind + (": " + o.msg if o.msg else "")})
-                        pending.append(("cex", inst, shape, conc, label))
-                        break
+                        for label, c in symbolic:
+                            if not z3.is_true(model.eval(c.v, model_completion=True)):
+                                failing = (label, model)
+                                break
+                        if failing is None:
+                            failing = (symbolic[0][0], model)
+                if failing is not None:
+                    label, model = failing
+                    conc = model_value(model, inputs)
+                    rec["cex"].append({"inst": inst, "shape": shape, "label": label, "inputs": show(conc),
+                                       "trace": "".join(o.trace), "outcome": o.kind + (": " + o.msg if o.msg else "")})
+                    pending.append(("cex", inst, shape, conc, label))
             rec["paths"] += len(outs)
             rec["queries"] += ex.queries
             rec["solver_s"] += ex.solver_s
